@@ -3,6 +3,7 @@
 use crate::kernel::*;
 use crate::plan::*;
 use crate::sim::*;
+use crate::sim::PROGRESS;
 use serde::{Deserialize, Serialize};
 use std::collections::{BTreeMap, BTreeSet};
 use std::sync::{Arc, Mutex};
@@ -27,6 +28,13 @@ pub struct RunResult {
     pub choices: Vec<u32>,
     pub log_tail: Vec<String>,
     pub switches: u64,
+    /// the workload thread is stuck without system calls; the process must end after reporting
+    #[serde(default)]
+    pub stuck: bool,
+}
+
+pub fn stuck_after_s() -> f64 {
+    std::env::var("SUBSIM_STUCK_S").ok().and_then(|s| s.parse().ok()).unwrap_or(6.0)
 }
 
 /// Which properties an oracle id speaks for.
@@ -158,6 +166,37 @@ pub fn run_plan(plan: &Plan, replay: Option<Vec<u32>>) -> RunResult {
             }
         })
         .expect("spawn workload thread");
+    // watchdog: a workload that makes no scheduling step for several real seconds is
+    // spinning (or stuck) without any system call - invisible to the simulated kernel
+    let mut last = PROGRESS.load(std::sync::atomic::Ordering::Relaxed);
+    let mut still_since = std::time::Instant::now();
+    let mut stuck = false;
+    while !h.is_finished() {
+        std::thread::sleep(std::time::Duration::from_millis(if still_since.elapsed().as_millis() < 50 { 1 } else { 20 }));
+        let cur = PROGRESS.load(std::sync::atomic::Ordering::Relaxed);
+        if cur != last {
+            last = cur;
+            still_since = std::time::Instant::now();
+        } else if still_since.elapsed().as_secs_f64() > stuck_after_s() {
+            stuck = true;
+            break;
+        }
+    }
+    if stuck {
+        // the thread cannot be stopped; report and let the caller end the process
+        let s = sim();
+        let label = s.threads.iter().filter_map(|t| t.lib_label.clone()).next().unwrap_or_else(|| "harness".into());
+        let in_lib = s.k.in_lib.iter().any(|b| *b);
+        let mut rr = RunResult { seed: plan.seed, stuck: true, ..Default::default() };
+        if in_lib {
+            rr.violations.push(Violation { oracle: "spin".into(), signature: format!("spin/no_syscalls/in={}", label), message: format!("the parent made no system call and no progress for {} s of real time inside {} (busy loop or hang outside the kernel); last events: {:?}", stuck_after_s(), label, s.k.log.iter().rev().take(5).map(fmt_event).collect::<Vec<_>>()) });
+        } else {
+            rr.harness_error = Some(format!("workload stuck outside a library call ({})", label));
+        }
+        rr.log_hash = s.k.log_hash;
+        rr.log_tail = s.k.log.iter().rev().take(100).rev().map(fmt_event).collect();
+        return rr;
+    }
     let _ = h.join();
     let extra: Vec<_> = STASH.lock().unwrap().drain(..).collect();
     for e in extra {
@@ -180,6 +219,7 @@ pub fn run_plan(plan: &Plan, replay: Option<Vec<u32>>) -> RunResult {
         choices: std::mem::take(&mut s.ch.taken),
         log_tail: s.k.log.iter().rev().take(200).rev().map(fmt_event).collect(),
         switches: s.sched_switches,
+        stuck: false,
     };
     // de-duplicate violations by signature
     let mut seen = BTreeSet::new();
@@ -233,6 +273,10 @@ pub fn violations_for<'a>(rr: &'a RunResult, prop: &str) -> Vec<&'a Violation> {
 }
 
 pub fn run_replay(rp: &Replay) -> RunResult {
+    if rp.choices.is_empty() && !rp.minimised {
+        // recorded without a choice list (stuck run): the seeded schedule is the replay
+        return run_plan(&rp.plan, None);
+    }
     run_plan(&rp.plan, Some(rp.choices.clone()))
 }
 
@@ -350,6 +394,8 @@ pub struct BatchOut {
     pub batches: BTreeMap<String, u64>,
     /// index -> log hash (only with --emit-hashes)
     pub hashes: BTreeMap<String, u64>,
+    #[serde(default)]
+    pub ended_early: Option<String>,
 }
 
 pub struct WorkerCfg {
@@ -393,6 +439,21 @@ pub fn worker(cfg: &WorkerCfg) -> BatchOut {
         let plan = gen_plan(&cfg.prop, cfg.base_seed, i);
         let rr = run_plan(&plan, None);
         out.runs += 1;
+        if rr.stuck {
+            for v in &rr.violations {
+                out.sig_counts.entry(v.signature.clone()).or_insert((0, i)).0 += 1;
+                let rp = Replay { version: 1, property: cfg.prop.clone(), oracle: v.oracle.clone(), signature: v.signature.clone(), message: v.message.clone(), plan: plan.clone(), choices: vec![], log_hash: rr.log_hash, log_tail: rr.log_tail.clone(), minimised: false, found_at: (cfg.base_seed, i) };
+                let fname = format!("{}/{}-{}-{:016x}.json", cfg.replay_dir, cfg.prop, sanitize(&v.oracle), crate::rng::hash_str(&v.signature));
+                if std::fs::write(&fname, serde_json::to_vec_pretty(&rp).unwrap()).is_ok() {
+                    out.replays.push(format!("{}\t{}", v.signature, fname));
+                }
+            }
+            if let Some(e) = &rr.harness_error {
+                out.harness_errors.push(format!("index {} seed {}: {}", i, plan.seed, e));
+            }
+            out.ended_early = Some(format!("index {}: workload thread stuck without system calls; worker ends here", i));
+            break;
+        }
         if cfg.emit_hashes {
             out.hashes.insert(i.to_string(), rr.log_hash);
         }
